@@ -75,6 +75,9 @@ func genC16(kind string) func(r *core.Rng) any {
 		if kind == "align-spaces" {
 			c.HAlign = 1 + r.Intn(2)
 		}
+		if kind == "newline-space" {
+			c.HAlign = 1 + r.Intn(3)
+		}
 		// right-aligned and centred lines that break at more than one space (or end in spaces before an
 		// explicit newline) are misplaced by the width of the dropped spaces: finding
 		// F-C16-align-dropped-spaces, stratum align-spaces only
@@ -92,6 +95,11 @@ func genC16(kind string) func(r *core.Rng) any {
 					break
 				}
 				switch {
+				case kind == "newline-space" && r.Chance(0.25):
+					// an explicit break followed by white space: the next line starts after it
+					sb.WriteString(core.PickS(r, []string{"\n", "\n", "\r\n"}) + core.PickS(r, []string{" ", "  ", "\t", " \t "}))
+				case kind == "newline-space":
+					sb.WriteString(" ")
 				case kind == "justify":
 					sb.WriteString(" ")
 				case r.Chance(0.08):
@@ -681,6 +689,7 @@ func init() {
 		Strata: []core.Stratum{
 			{Name: "mixed", Quick: 1500, Thorough: 40000, Gen: genC16("mixed")},
 			{Name: "justify", Quick: 1000, Thorough: 30000, Gen: genC16("justify")},
+			{Name: "newline-space", Quick: 800, Thorough: 20000, Gen: genC16("newline-space"), Note: "explicit breaks followed by white space, right-aligned, centred and justified"},
 			{Name: "textline", Quick: 800, Thorough: 20000, Gen: genC16Line, Note: "NewTextLine with every paragraph separator (LF, VT, FF, CR, CR LF, NEL, LS, PS), mixed scripts, three alignments"},
 			{Name: "hostile", Quick: 500, Thorough: 15000, Gen: genC16("hostile")},
 			{Name: "align-spaces", Quick: 300, Thorough: 5000, Gen: genC16("align-spaces"), WitnessOnly: true, Note: "right-aligned and centred text with double spaces between words: the width of the spaces dropped at a line end is still counted, so such lines end short of the right edge / are off-centre by half of it"},
